@@ -3,6 +3,7 @@
 package main
 
 import (
+	"encoding/base64"
 	"fmt"
 	mrand "math/rand"
 	"net/url"
@@ -22,6 +23,12 @@ func (w *vpWorld) project(r *vpResp) map[string]interface{} {
 		if u, err := url.Parse(loc); err == nil && loc != "" {
 			q := u.Query()
 			state := q.Get("state")
+			if !strings.Contains(state, ":") {
+				// encode-state: the whole "nonce:redirect" pair is base64url-encoded
+				if b, err := base64.RawURLEncoding.DecodeString(strings.TrimRight(state, "=")); err == nil && strings.Contains(string(b), ":") {
+					state = string(b)
+				}
+			}
 			if i := strings.Index(state, ":"); i >= 0 {
 				state = state[i:]
 			}
